@@ -518,6 +518,8 @@ def main():
         "known_findings_seen": sorted(seen_known.keys()),
         "translator_ok": extract_ok, "proof_build_ok": report["proof_ok"], "axiom_audit_ok": report["audit"].get("ok", False),
     }
+    if searched is not None:
+        coverage["failing_input_search"] = searched
     gl = report.get("gen_log", "")
     m = re.search(r"^COVERAGE (\{.*\})$", gl, re.M)
     if m:
